@@ -148,6 +148,29 @@ def r03b(P, R):
     ok = bool(conts) and has_field(pv.atoms(conts[0]["args"][0]), A + "selection_set::FragmentSpread", "fragment_name") and ("param", "seen_fragments") in pv.atoms(conts[0]["recv"])
     R.check("R03-b", "spread-cycle-guard", ok, "a fragment already on the spread stack is reported (RecursingFragmentSpread) instead of re-entered",
             "check_fragment_spread has no stack check keyed by the spread's fragment name", loc=cfs.loc())
+    # descent: in the shared helper every path except the non-composite-parent arm reaches check_selection_set for the fragment's
+    # selection set (no applicability shortcut may skip the body)
+    core = P.fn(CK + "operation_checker::check_fragment_spread_core")
+    cnodes = core.nodes()
+    descents = [i for i, (x, _) in enumerate(cnodes) if x.get("k") == "Call" and call_name(x) == css.path]
+    R.floor("R03-b", "check_selection_set calls in check_fragment_spread_core", len(descents), 1)
+    uncond = [i for i in descents if not [c for c in enclosing_contexts(core, i) if c[0] != "closure" and not (c[0] == "arm" and c[1] is not None and c[1].get("src") != "Normal")]]
+    R.check("R03-b", "core-descent-unconditional", bool(uncond), "the body check is the unconditional tail of the helper",
+            "check_fragment_spread_core calls check_selection_set only conditionally", loc=core.loc())
+    for i, (x, _) in enumerate(cnodes):
+        if x.get("k") != "Ret":
+            continue
+        arms = [c for c in enclosing_contexts(core, i) if c[0] == "arm" and c[1] is not None and c[1].get("src") == "Normal" and c[1]["scrut"].get("k") == "Tup"]
+        kinds = set()
+        if arms:
+            pat = arms[-1][2]["pat"]
+            first = pat["ps"][0] if pat.get("k") == "Tuple" else pat
+            kinds = {norm(q.get("ctor_of") or q.get("def") or "").split("::")[-1] for q in subnodes(first) if q.get("k") in ("TupleStruct", "Path", "Struct")} - {""}
+        ok = bool(kinds) and kinds <= LEAF_OR_INPUT
+        R.check("R03-b", "core-early-return:%s" % ("/".join(sorted(kinds)) or "?"), ok,
+                "early return only for a non-composite parent type (reported elsewhere as SelectionOnInvalidType)",
+                "check_fragment_spread_core returns before check_selection_set on the arm for parent kinds %s: the selection set of such a "
+                "fragment is never validated (e.g. `node { ... on Node { nope } }` when both sides are the same interface)" % sorted(kinds), loc=core.loc())
     chains = [c for c in cfs.walk() if c.get("k") == "MethodCall" and c["method"] == "chain"]
     ok = bool(chains) and has_field(pv.atoms(chains[0]["args"][0]), A + "selection_set::FragmentSpread", "fragment_name")
     R.check("R03-b", "spread-stack-push", ok, "the spread's name is pushed on the stack passed down", "the fragment name is not added to seen_fragments", loc=cfs.loc())
